@@ -558,41 +558,58 @@ Proof.
   intros _. apply nth_error_Some. congruence.
 Qed.
 
+(* a sequence of loads of parsed files (file name, parsed tree, parser state) into the model m *)
+Definition item := (list N * Parser.etree * Parser.pstate)%type.
+Fixpoint load_seq (m : N) (l : list item) (w : world) : res (list (out N) * world) :=
+  match l with
+  | [] => Val ([], w)
+  | (fname, e, st) :: r =>
+    match load_parsed T LATEST defref m fname e st w with
+    | Val (o, w') => match load_seq m r w' with
+                     | Val (os, w'') => Val (o :: os, w'') | Pan s => Pan s | Fuel => Fuel end
+    | Pan s => Pan s
+    | Fuel => Fuel
+    end
+  end.
+(* the parsed file is the partial view of the master M in the file g, of version v *)
+Definition is_view (M : mtree) (g : N) (it : item) : Prop :=
+  project g M = Some (snd (fst it)) /\ Parser.p_version (snd it) = v.
+
 Theorem heap_chain M m : Good T defref v M ->
-  forall gs F w ta os w',
+  forall gs items F w ta os w',
+    Forall2 (is_view M) gs items ->
     ModelTree w m ta (rev F) -> F <> [] -> Rep T F None M (erase ta) ->
     NoDup (gs ++ F) -> (forall g, In g (gs ++ F) -> In g (mfiles M)) ->
     gs = n_range (List.length gs) (N.of_nat (List.length (w_files w))) ->
     (forall f, In f F -> fver_files (w_files w) f = Some v) ->
-    load_views T LATEST defref m M (fun _ => v) gs w = Val (os, w') ->
+    load_seq m items w = Val (os, w') ->
     Forall (fun o => o <> ER OverlappingDataError) os ->
     Forall2 (fun g o => o = OK g) gs os /\
     exists ta', ModelTree w' m ta' (rev F ++ gs) /\ Rep T (rev gs ++ F) None M (erase ta').
 Proof.
   intros HG. destruct (Good_files T defref v M HG) as (Hs & _).
-  induction gs as [|g gs IH]; intros F w ta os w' MT HFne HR Hnd Hin Hgs Hver HL Hov.
-  - cbn [load_views] in HL. injection HL as <- <-. split; [constructor|]. exists ta. rewrite app_nil_r. cbn [rev app]. auto.
-  - cbn [load_views] in HL.
+  induction gs as [|g gs IH]; intros items F w ta os w' Hitems MT HFne HR Hnd Hin Hgs Hver HL Hov.
+  - inversion Hitems; subst. cbn [load_seq] in HL. injection HL as <- <-. split; [constructor|]. exists ta. rewrite app_nil_r. cbn [rev app]. auto.
+  - inversion Hitems as [|? [[fname e] st] ? items' (He & Hv) Hitems']; subst. cbn [fst snd] in He, Hv. cbn [load_seq] in HL.
     assert (Hg : In g (mfiles M)) by (apply Hin; left; reflexivity).
-    destruct (project_some g M (proj2 (set_mem_in _ _) Hg)) as (e & He). rewrite He in HL.
-    destruct (load_parsed T LATEST defref m (to_dec g) e (pstate_of T v e) w) as [[o w1]| |] eqn:EL; try discriminate.
-    destruct (load_views T LATEST defref m M (fun _ => v) gs w1) as [[os1 w2]| |] eqn:EL2; try discriminate.
+    destruct (load_parsed T LATEST defref m fname e st w) as [[o w1]| |] eqn:EL; try discriminate.
+    destruct (load_seq m items' w1) as [[os1 w2]| |] eqn:EL2; try discriminate.
     injection HL as <- <-. inversion Hov as [|? ? Ho Hov1]; subst.
     cbn [app] in Hnd. inversion Hnd as [|? ? Hnot Hnd']; subst.
     assert (HgF : ~ In g F) by (intros H; apply Hnot; apply in_or_app; right; exact H).
     cbn [List.length n_range] in Hgs. injection Hgs as Eg Egs.
     pose proof (pview_project (depth M) M (le_n _) g e He) as Eview.
-    set (fl := mkFile m (to_dec g) (Parser.p_version (pstate_of T v e)) (Parser.p_standalone (pstate_of T v e))) in *.
+    set (fl := mkFile m fname (Parser.p_version st) (Parser.p_standalone st)) in *.
     set (fver := fver_files (w_files w ++ [fl])).
     assert (Hfv : forall f, In f (g :: F) -> fver f = Some v).
     { intros f [<-|Hf]; unfold fver.
-      - rewrite Eg. rewrite fver_files_app_new. reflexivity.
+      - rewrite Eg. rewrite fver_files_app_new. unfold fl. cbn [f_version]. rewrite Hv. reflexivity.
       - rewrite fver_files_app_old; [apply Hver; exact Hf|]. eapply fver_files_some. apply Hver. exact Hf. }
     assert (Hset : fold_right set_add [] (rev F) = inF F (mfiles M)).
     { apply files_set_inF; [exact Hs|]. intros f Hf. apply Hin. right. apply in_or_app. right. exact Hf. }
     pose (P := fun ha' : htree => h_local ha' = h_local (erase ta) /\
                  forall inh', Rep T (g :: F) inh' M (h_set_local ha' (norm inh' (inF (g :: F) (mfiles M))))).
-    destruct (load_parsed_merge T LATEST defref m (to_dec g) e (pstate_of T v e) w ta (rev F) o w1 P MT) as [->|(-> & Hf1 & ta1 & ha' & MT1 & Ee1 & (Hl & Hr))].
+    destruct (load_parsed_merge T LATEST defref m fname e st w ta (rev F) o w1 P MT) as [->|(-> & Hf1 & ta1 & ha' & MT1 & Ee1 & (Hl & Hr))].
     { intros E. apply HFne. destruct F; [reflexivity|]. cbn [rev] in E. destruct (rev F); discriminate. }
     { intros fuel Hfuel. fold fl. fold fver. rewrite Eview, Hset, <- Eg. split.
       - apply (rep_clean T LATEST defref v fver fuel M HG F g None (erase ta) Hfv HgF Hg HR).
@@ -607,7 +624,7 @@ Proof.
     assert (HR1 : Rep T (g :: F) None M (erase ta1)).
     { rewrite Ee1, Hl, Hloc, <- Eg. exact Hr. }
     fold fl in Hf1.
-    destruct (IH (g :: F) w1 ta1 os1 w2) as (F2 & ta2 & MT2 & HR2); auto.
+    destruct (IH items' (g :: F) w1 ta1 os1 w2) as (F2 & ta2 & MT2 & HR2); auto.
     + cbn [rev]. rewrite <- Eg in MT1. exact MT1.
     + discriminate.
     + apply NoDup_app_swap_cons. exact Hnd.
@@ -615,7 +632,7 @@ Proof.
       right. apply in_or_app. right. exact H0.
     + rewrite Hf1, app_length. cbn [List.length]. rewrite Egs at 1. f_equal. lia.
     + intros f [<-|Hf]; rewrite Hf1.
-      * rewrite Eg, fver_files_app_new. reflexivity.
+      * rewrite Eg, fver_files_app_new. unfold fl. cbn [f_version]. rewrite Hv. reflexivity.
       * rewrite fver_files_app_old; [apply Hver; exact Hf|]. eapply fver_files_some. apply Hver. exact Hf.
     + split; [constructor; [rewrite Eg; reflexivity|exact F2]|].
       exists ta2. cbn [rev] in MT2. rewrite <- app_assoc in MT2. cbn [app] in MT2. split; [exact MT2|].
@@ -634,6 +651,68 @@ Qed.
    rejected by the overlap check of the path index, every load succeeds and the tree of the model (read back from the
    heap: abs_model) is the master restricted to the loaded files — every element exactly once, the local membership
    normalised; it is the master up to the order of siblings when the files cover it, and every file projects out of it. *)
+Theorem heap_union_seq M m x w0 n items os w :
+  Good T defref v M ->
+  nth_opt (w_models w0) (N.to_nat m) = Some x -> m_files x = [] ->
+  let gs := n_range (S n) (N.of_nat (List.length (w_files w0))) in
+  Forall2 (is_view M) gs items ->
+  (forall g, In g gs -> In g (mfiles M)) ->
+  load_seq m items w0 = Val (os, w) ->
+  Forall (fun o => o <> ER OverlappingDataError) os ->
+  Forall2 (fun g o => o = OK g) gs os /\
+  exists ta, ModelTree w m ta gs /\ abs_model w m = Some (erase ta) /\
+             Rep T (rev gs) None M (erase ta) /\
+             (covers gs M -> hperm (erase ta) (expected None M)) /\
+             (forall f, In f gs -> hperm (hproj f (erase ta)) (pview f M)).
+Proof.
+  intros HG Hx Hfx gs Hitems Hin HL Hov. unfold gs in *. cbn [n_range] in *.
+  set (g0 := N.of_nat (List.length (w_files w0))) in *. set (gr := n_range n (g0 + 1)) in *.
+  inversion Hitems as [|? [[fname e] st] ? items' (He & Hv) Hitems']; subst. cbn [fst snd] in He, Hv.
+  cbn [load_seq] in HL.
+  assert (Hg0 : In g0 (mfiles M)) by (apply Hin; left; reflexivity).
+  destruct (load_parsed T LATEST defref m fname e st w0) as [[o w1]| |] eqn:EL; try discriminate.
+  destruct (load_seq m items' w1) as [[os1 w2]| |] eqn:EL2; try discriminate.
+  injection HL as <- <-. inversion Hov as [|? ? Ho Hov1]; subst.
+  pose proof (pview_project (depth M) M (le_n _) g0 e He) as Eview.
+  destruct (load_parsed_first T LATEST defref m fname e st w0 x o w1 Hx Hfx EL)
+    as [->|(-> & Hf1 & ta1 & MT1 & Ee1)]; [exfalso; apply Ho; reflexivity|].
+  fold g0 in MT1, Ee1. rewrite Eview in Ee1.
+  assert (HR1 : Rep T [g0] None M (erase ta1)).
+  { rewrite Ee1. apply (first_view_rep T defref v M g0 HG Hg0). }
+  assert (Hnd : NoDup (gr ++ [g0])).
+  { eapply Permutation_NoDup; [apply Permutation_app_comm|]. cbn [app]. apply (n_range_nodup (S n) g0). }
+  destruct (heap_chain M m HG gr items' [g0] w1 ta1 os1 w2) as (F2 & ta2 & MT2 & HR2); auto.
+  - discriminate.
+  - intros g Hg. apply Hin. apply in_app_or in Hg as [Hg|[<-|[]]]; [right; exact Hg|left; reflexivity].
+  - unfold gr at 1. rewrite Hf1, app_length. cbn [List.length]. f_equal.
+    + unfold gr. clear. generalize (g0 + 1). induction n as [|k IHk]; intros from; cbn [n_range List.length]; auto.
+    + fold g0. lia.
+  - intros f [<-|[]]. rewrite Hf1. unfold g0. rewrite fver_files_app_new. cbn [f_version]. exact (f_equal Some Hv).
+  - cbn [rev app] in MT2. split; [constructor; [reflexivity|exact F2]|].
+    exists ta2. split; [exact MT2|]. split; [eapply ModelTree_abs_model; exact MT2|].
+    assert (HR3 : Rep T (rev (g0 :: gr)) None M (erase ta2)) by (cbn [rev]; exact HR2).
+    split; [exact HR3|]. split.
+    + intros Hc. apply (Rep_expected T defref v (depth M) M (le_n _) HG (rev (g0 :: gr)) None (erase ta2)); [|intros p [=]|exact HR3].
+      apply (covers_incl (depth M) M (le_n _) (g0 :: gr)); [|exact Hc]. intros y Hy. apply in_rev in Hy. exact Hy.
+    + intros f Hf. apply (Rep_project T defref v (depth M) M (le_n _) HG (rev (g0 :: gr)) None (erase ta2) f); [|apply Hin; exact Hf|exact HR3].
+      exact (proj1 (in_rev _ _) Hf).
+Qed.
+
+(* the loads of MergePureProofsKeys.load_views (the statement C09_full is phrased with) are such a sequence *)
+Lemma load_views_seq M m : forall gs,
+  (forall g, In g gs -> In g (mfiles M)) ->
+  exists items, Forall2 (is_view M) gs items /\
+                forall w, load_views T LATEST defref m M (fun _ => v) gs w = load_seq m items w.
+Proof.
+  induction gs as [|g gs IH]; intros Hin.
+  - exists []. split; [constructor|reflexivity].
+  - destruct IH as (items & HF & HE); [intros g0 H0; apply Hin; right; exact H0|].
+    destruct (project_some g M (proj2 (set_mem_in _ _) (Hin g (or_introl eq_refl)))) as (e & He).
+    exists ((to_dec g, e, pstate_of T v e) :: items). split; [constructor; [split; [exact He|reflexivity]|exact HF]|].
+    intros w. cbn [load_views load_seq]. rewrite He.
+    destruct (load_parsed T LATEST defref m (to_dec g) e (pstate_of T v e) w) as [[o w1]| |]; try reflexivity. rewrite HE. reflexivity.
+Qed.
+
 Theorem heap_union M m x w0 n os w :
   Good T defref v M ->
   nth_opt (w_models w0) (N.to_nat m) = Some x -> m_files x = [] ->
@@ -647,37 +726,108 @@ Theorem heap_union M m x w0 n os w :
              (covers gs M -> hperm (erase ta) (expected None M)) /\
              (forall f, In f gs -> hperm (hproj f (erase ta)) (pview f M)).
 Proof.
-  intros HG Hx Hfx gs Hin HL Hov. unfold gs in *. cbn [n_range] in *.
-  set (g0 := N.of_nat (List.length (w_files w0))) in *. set (gr := n_range n (g0 + 1)) in *.
-  cbn [load_views] in HL.
-  assert (Hg0 : In g0 (mfiles M)) by (apply Hin; left; reflexivity).
-  destruct (project_some g0 M (proj2 (set_mem_in _ _) Hg0)) as (e & He). rewrite He in HL.
-  destruct (load_parsed T LATEST defref m (to_dec g0) e (pstate_of T v e) w0) as [[o w1]| |] eqn:EL; try discriminate.
-  destruct (load_views T LATEST defref m M (fun _ => v) gr w1) as [[os1 w2]| |] eqn:EL2; try discriminate.
-  injection HL as <- <-. inversion Hov as [|? ? Ho Hov1]; subst.
-  pose proof (pview_project (depth M) M (le_n _) g0 e He) as Eview.
-  destruct (load_parsed_first T LATEST defref m (to_dec g0) e (pstate_of T v e) w0 x o w1 Hx Hfx EL)
-    as [->|(-> & Hf1 & ta1 & MT1 & Ee1)]; [exfalso; apply Ho; reflexivity|].
-  fold g0 in MT1, Ee1. rewrite Eview in Ee1.
-  assert (HR1 : Rep T [g0] None M (erase ta1)).
-  { rewrite Ee1. apply (first_view_rep T defref v M g0 HG Hg0). }
-  assert (Hnd : NoDup (gr ++ [g0])).
-  { eapply Permutation_NoDup; [apply Permutation_app_comm|]. cbn [app]. apply (n_range_nodup (S n) g0). }
-  destruct (heap_chain M m HG gr [g0] w1 ta1 os1 w2) as (F2 & ta2 & MT2 & HR2); auto.
-  - discriminate.
-  - intros g Hg. apply Hin. apply in_app_or in Hg as [Hg|[<-|[]]]; [right; exact Hg|left; reflexivity].
-  - unfold gr at 1. rewrite Hf1, app_length. cbn [List.length]. f_equal.
-    + unfold gr. clear. generalize (g0 + 1). induction n as [|k IHk]; intros from; cbn [n_range List.length]; auto.
-    + fold g0. lia.
-  - intros f [<-|[]]. rewrite Hf1. unfold g0. rewrite fver_files_app_new. reflexivity.
-  - cbn [rev app] in MT2. split; [constructor; [reflexivity|exact F2]|].
-    exists ta2. split; [exact MT2|]. split; [eapply ModelTree_abs_model; exact MT2|].
-    assert (HR3 : Rep T (rev (g0 :: gr)) None M (erase ta2)) by (cbn [rev]; exact HR2).
-    split; [exact HR3|]. split.
-    + intros Hc. apply (Rep_expected T defref v (depth M) M (le_n _) HG (rev (g0 :: gr)) None (erase ta2)); [|intros p [=]|exact HR3].
-      apply (covers_incl (depth M) M (le_n _) (g0 :: gr)); [|exact Hc]. intros y Hy. apply in_rev in Hy. exact Hy.
-    + intros f Hf. apply (Rep_project T defref v (depth M) M (le_n _) HG (rev (g0 :: gr)) None (erase ta2) f); [|apply Hin; exact Hf|exact HR3].
-      exact (proj1 (in_rev _ _) Hf).
+  intros HG Hx Hfx gs Hin HL Hov.
+  destruct (load_views_seq M m gs Hin) as (items & HF & HE). rewrite HE in HL.
+  exact (heap_union_seq M m x w0 n items os w HG Hx Hfx HF Hin HL Hov).
 Qed.
 
 End HeapUnion.
+
+(* ====================================================================== the same for m_load_buffer itself *)
+Section Buffers.
+Variable T : tables.
+Variables tab_el tab_at tab_en : nametab.
+Variable check_fn : N -> list N -> res bool.
+Variable float_parse : list N -> option N.
+Variables LATEST defref v : N.
+
+(* a load of a buffer that parses is the duplicate-name check followed by load_parsed *)
+Lemma m_load_buffer_parsed m buf fname strict w r w' e st :
+  Parser.load strict T tab_el tab_at tab_en check_fn float_parse buf = Val (Parser.Ret e st) ->
+  m_load_buffer T tab_el tab_at tab_en check_fn float_parse LATEST defref m buf fname strict w = Val (r, w') ->
+  (r = ER DuplicateFilenameError /\ w' = w) \/
+  exists r0, load_parsed T LATEST defref m fname e st w = Val (r0, w') /\
+             r = match r0 with OK f => OK (f, rev (Parser.p_warnings st)) | ER err => ER err end.
+Proof.
+  intros Hparse H. unfold m_load_buffer in H.
+  apply wbind_inv in H as [(x & w1 & H1 & H) | (e' & H1 & _)]; [|apply get_model_inv in H1 as (? & _ & [=] & _)].
+  apply get_model_inv in H1 as (x' & _ & _ & ->).
+  apply wbind_inv in H as [(w0 & w2 & H2 & H) | (e' & H2 & _)]; [|apply wget_inv in H2 as ([=] & _)].
+  apply wget_inv in H2 as (E2 & ->). injection E2 as ->.
+  destruct (existsb _ (m_files x)).
+  { apply wfail_inv in H as (-> & ->). left. auto. }
+  rewrite Hparse in H. right.
+  apply wbind_inv in H as [(f & w3 & H3 & H) | (e' & H3 & ->)].
+  - apply wret_inv in H as (-> & ->). exists (OK f). auto.
+  - exists (ER e'). auto.
+Qed.
+
+Fixpoint load_bufs (m : N) (strict : bool) (l : list (list N * list N)) (w : world)
+  : res (list (out (N * list Parser.perror)) * world) :=
+  match l with
+  | [] => Val ([], w)
+  | (buf, fname) :: r =>
+    match m_load_buffer T tab_el tab_at tab_en check_fn float_parse LATEST defref m buf fname strict w with
+    | Val (o, w') => match load_bufs m strict r w' with
+                     | Val (os, w'') => Val (o :: os, w'') | Pan s => Pan s | Fuel => Fuel end
+    | Pan s => Pan s
+    | Fuel => Fuel
+    end
+  end.
+
+Definition parses_to (strict : bool) (b : list N * list N) (it : item) : Prop :=
+  Parser.load strict T tab_el tab_at tab_en check_fn float_parse (fst b) = Val (Parser.Ret (snd (fst it)) (snd it)) /\
+  fst (fst it) = snd b.
+
+Definition lifts (o : out (N * list Parser.perror)) (o0 : out N) : Prop :=
+  match o0 with OK f => exists ws, o = OK (f, ws) | ER err => o = ER err end.
+
+Lemma load_bufs_seq m strict : forall bufs items w os w',
+  Forall2 (parses_to strict) bufs items ->
+  load_bufs m strict bufs w = Val (os, w') ->
+  Forall (fun o => o <> ER DuplicateFilenameError) os ->
+  exists os0, load_seq T LATEST defref m items w = Val (os0, w') /\ Forall2 lifts os os0.
+Proof.
+  induction bufs as [|[buf fname] bufs IH]; intros items w os w' HF HL Hd; inversion HF as [|? [[fn e] st] ? items' (Hp & Hn) HF']; subst.
+  - cbn [load_bufs] in HL. injection HL as <- <-. exists []. split; [reflexivity|constructor].
+  - cbn [fst snd] in Hp, Hn. subst fn. cbn [load_bufs] in HL.
+    destruct (m_load_buffer _ _ _ _ _ _ _ _ m buf fname strict w) as [[o w1]| |] eqn:EL; try discriminate.
+    destruct (load_bufs m strict bufs w1) as [[os1 w2]| |] eqn:EL2; try discriminate.
+    injection HL as <- <-. inversion Hd as [|? ? Ho Hd1]; subst.
+    destruct (m_load_buffer_parsed m buf fname strict w o w1 e st Hp EL) as [(-> & _)|(r0 & E0 & ->)]; [congruence|].
+    destruct (IH items' w1 os1 w2 HF' EL2 Hd1) as (os0 & E1 & F1).
+    exists (r0 :: os0). cbn [load_seq]. rewrite E0, E1. split; [reflexivity|]. constructor; [|exact F1].
+    unfold lifts. destruct r0; [eexists; reflexivity|reflexivity].
+Qed.
+
+(* C09 on the heap model, class Good, for AutosarModel::load_buffer: the buffers parse to the partial views of the master
+   (file k of the master = file id b + k), versions v.  No load is rejected by the merge; if none is rejected for a
+   duplicate file name or by the overlap check, all succeed, the model tree is the master restricted to the loaded files
+   (the whole master up to the order of siblings when the files cover it), and every file projects out of it. *)
+Theorem heap_union_buffers M m x w0 n strict bufs items os w :
+  Good T defref v M ->
+  nth_opt (w_models w0) (N.to_nat m) = Some x -> m_files x = [] ->
+  let gs := n_range (S n) (N.of_nat (List.length (w_files w0))) in
+  Forall2 (parses_to strict) bufs items -> Forall2 (is_view v M) gs items ->
+  (forall g, In g gs -> In g (mfiles M)) ->
+  load_bufs m strict bufs w0 = Val (os, w) ->
+  Forall (fun o => o <> ER DuplicateFilenameError /\ o <> ER OverlappingDataError) os ->
+  Forall2 (fun g o => exists ws, o = OK (g, ws)) gs os /\
+  exists ta, ModelTree w m ta gs /\ abs_model w m = Some (erase ta) /\
+             Rep T (rev gs) None M (erase ta) /\
+             (covers gs M -> hperm (erase ta) (expected None M)) /\
+             (forall f, In f gs -> hperm (hproj f (erase ta)) (pview f M)).
+Proof.
+  intros HG Hx Hfx gs Hparse Hview Hin HL Hos.
+  destruct (load_bufs_seq m strict bufs items w0 os w Hparse HL) as (os0 & E0 & F0).
+  { eapply Forall_impl; [|exact Hos]. intros o [H _]. exact H. }
+  assert (Hov : Forall (fun o => o <> ER OverlappingDataError) os0).
+  { clear -F0 Hos. induction F0 as [|o o0 os os0 Hl F0 IH]; [constructor|]. inversion Hos as [|? ? [_ Ho] Hos']; subst.
+    constructor; [|apply IH; exact Hos']. intros ->. unfold lifts in Hl. congruence. }
+  destruct (heap_union_seq T LATEST defref v M m x w0 n items os0 w HG Hx Hfx Hview Hin E0 Hov) as (F1 & Hta).
+  split; [|exact Hta]. fold gs in F1. clear -F0 F1. revert os F0. induction F1 as [|g o0 gs' os0 -> F1 IH]; intros os F0; inversion F0 as [|o ? os' ? Hl F0']; subst.
+  - constructor.
+  - constructor; [exact Hl|apply IH; exact F0'].
+Qed.
+
+End Buffers.
